@@ -21,7 +21,12 @@ FnOfName(nm) == IF nm.some THEN FnNamed(nm.b) ELSE FnAnon
 
 \* Position of an interpolation slot: derived from the literal's position and
 \* the slot's character offset in the decoded literal (column + offset + 4).
-SlotLoc(loc, off, idx) == [slot |-> TRUE, base |-> loc, off |-> off, idx |-> idx]
+\* the position of an interpolation slot: the idx-th part of the literal at `loc`.  It is where the slot's
+\* expression starts in the source text (after `${`); a tree that came from the real parser carries the
+\* position of the slot (`sloc`), a generated tree is placed by the harness.
+SlotLoc(loc, part, idx) ==
+    [slot |-> TRUE, base |-> loc, off |-> part.off, idx |-> idx,
+     sloc |-> IF "sloc" \in DOMAIN part THEN part.sloc ELSE <<>>]
 
 \* The position `(0, 0)` the interpreter gives the bindings it creates itself
 \* (`print`, `this`).
@@ -45,7 +50,7 @@ MkDiag(ctx, kind, loc, msg) ==
     LET inner  == [loc |-> loc, fn |-> FnAt(ctx, Len(ctx) + 1)]
         ii     == SetToSortSeq(InterpIdx(ctx), <)
         outer  == [n \in 1 .. Len(ii) |->
-                     [loc |-> SlotLoc(ctx[ii[n]].e.loc, ctx[ii[n]].e.parts[ctx[ii[n]].i].off, ctx[ii[n]].i),
+                     [loc |-> SlotLoc(ctx[ii[n]].e.loc, ctx[ii[n]].e.parts[ctx[ii[n]].i], ctx[ii[n]].i),
                       fn  |-> FnAt(ctx, ii[n])]]
         ci     == SetToSortSeq(CallIdx(ctx), >)         \* innermost first
         trace  == [n \in 1 .. Len(ci) |-> [loc |-> ctx[ci[n]].loc, fn |-> FnAt(ctx, ci[n])]]
